@@ -15,6 +15,7 @@ LV = "signac.linked_view"
 
 TP = z3.DeclareSort("TreePath")
 NTK = z3.Function("NTK", TP, z3.IntSort())
+TOK_IS = z3.Function("TOK_IS", TP, z3.IntSort(), z3.StringSort(), z3.BoolSort())      # component i of the path is this text
 PFX = z3.Function("PFX", TP, z3.IntSort(), TP)
 ROOT = z3.Const("ROOT", TP)
 CHILD = z3.Function("CHILD", TP, z3.IntSort(), TP)      # i-th child of a node (enumeration of node.children.values())
@@ -87,6 +88,15 @@ class STok(Sym):
 
     def __init__(self, p, i):
         self.p, self.i = p, i
+
+    def sym_eq(self, ex, other):
+        # a component may be any text, also '' or '.' (a custom path specification such as 'x//{a}' or './a/{a}' produces them)
+        if isinstance(other, str):
+            return SBool(TOK_IS(self.p, self.i if isinstance(self.i, z3.ExprRef) else z3.IntVal(self.i), z3.StringVal(other)))
+        raise Unsupported(f"== on STok vs {type(other).__name__}")
+
+    def sym_hashable(self):
+        return True
 
 
 class SComponents(Sym):
